@@ -246,15 +246,14 @@ macro_rules! ranged_bytes_case {
                                 n += 1;
                             }
                             assert!(n == count);
-                            kani::cover!(n == 2);
                         } else {
                             let mut it = seq.iter();
                             match it.next() {
                                 Some((s, idx)) => assert!(s.is_empty() && idx == start),
                                 None => panic!("count >= 1"),
                             }
-                            kani::cover!(true);
                         }
+                        kani::cover!(count >= 1);
                     }
                     _ => panic!("wrong container variant"),
                 }
